@@ -68,10 +68,7 @@ Definition ext_after_c (ops : list mop) (exs : list (list node)) : xenv :=
   fst (fold_left ext_step_c (combine ops exs) (no_ext, [])).
 
 (** * the side condition *)
-Inductive sreach (p : program) : node -> node -> Prop :=
-| sr_one : forall m e n, alookup p m = Some e -> In n (expr_reads e) -> sreach p m n
-| sr_step : forall m e d n, alookup p m = Some e -> In d (expr_reads e) -> sreach p d n -> sreach p m n.
-
+(** [sreach p m n] ([Engine/MdlRunBase.v]): [m] reads [n], directly or indirectly *)
 Definition mpartial_ok (p : program) (s : state) (stk : list node) (c : caller) (n : node) : Prop :=
   (forall m, In m stk -> sreach p m n) /\
   (is_cq c = false -> stk = []) /\
@@ -100,13 +97,6 @@ Hypothesis Hproj : forall n e d, alookup p n = Some e -> nkind n = KProjection -
   is_fw_or_proj (nkind d) = true.
 Hypothesis Hkeys : forall n e, alookup p n = Some e -> is_mexec_kind (nkind n) = true.
 
-Lemma sreach_rank : forall m n, sreach p m n -> (rk n < rk m)%nat.
-Proof.
-  intros m n H. induction H as [m e n He Hn|m e d n He Hd _ IH].
-  - eapply Hrk; eauto.
-  - pose proof (Hrk _ _ _ He Hd). lia.
-Qed.
-
 (** a completed sub-request keeps the invariant, whatever the caller, flags, frame *)
 Lemma partial_query : forall fuel env s stk c fr n o fr' ms s1,
   BInv p rk env s -> mpartial_ok p s stk c n ->
@@ -114,10 +104,9 @@ Lemma partial_query : forall fuel env s stk c fr n o fr' ms s1,
   MInv p rk (set_log s []) [] env s1.
 Proof.
   intros fuel env s stk c fr n o fr' ms s1 HI0 (Hs & Hroot & Hnp) Eq.
-  assert (Hstk : StkOk rk stk n) by (intros m Hm; apply sreach_rank; apply Hs; exact Hm).
   assert (Hxm : XMode c []) by (destruct c; cbn; auto).
   destruct (proj1 (msound_all p rk (set_log s []) Hrk Hproj Hkeys fuel) env [] [] stk c fr n _ o fr' ms s1
-              HI0 Hstk Hroot Hnp Hxm (or_introl eq_refl) Eq) as (HI1 & _).
+              HI0 Hs Hroot Hnp Hxm (or_introl eq_refl) Eq) as (HI1 & _).
   exact HI1.
 Qed.
 
